@@ -376,6 +376,65 @@ def b_default_azimuth_sets(S):
     return out
 
 
+def b_calc_bins(S):
+    out = translate_function(
+        S[AZIMUTH], "_calc_bins", "calc_bins",
+        {"ideal_bin_width": "Rat", "axial": "Bool"}, "List Rat × Rat", {},
+        types={"max_angle": "Rat", "div": "Rat", "rounded_div": "Int", "bin_width": "Rat", "start": "Rat", "end": "Rat", "bin_edges": "List Rat"},
+        default_num="Rat",
+    )
+    out += "\n" + translate_function(
+        S[AZIMUTH], "_calc_locs", "calc_locs",
+        {"bin_width": "Rat", "axial": "Bool"}, "List Rat", {},
+        types={"max_angle": "Rat", "start": "Rat", "end": "Rat", "locs": "List Rat"},
+        default_num="Rat",
+    )
+    return out
+
+
+def b_random_radius(S):
+    C = {"self.max_radius": "max_radius", "self.min_radius": "min_radius", "np.random.random_sample()": "u",
+         "self.max_area": "max_area", "self.min_area": "min_area"}
+    T = {"self.max_radius": "Rat", "self.min_radius": "Rat", "np.random.random_sample()": "Rat", "self.max_area": "Rat", "self.min_area": "Rat"}
+    out = translate_function(
+        S[RSAMP], "NetworkRandomSampler.random_radius", "random_radius",
+        {"min_radius": "Rat", "max_radius": "Rat", "u": "Rat"}, "Rat", C, types=dict(T, radius_range="Rat", radius="Rat"), default_num="Rat")
+    out += "\n" + translate_function(
+        S[RSAMP], "NetworkRandomSampler.random_area", "random_area",
+        {"min_area": "Rat", "max_area": "Rat", "u": "Rat"}, "Rat", C, types=dict(T, area_range="Rat", area="Rat"), default_num="Rat")
+    # radius of the disc the sample centre is drawn from
+    hits = find_expressions(S[RSAMP], "NetworkRandomSampler.random_target_circle", r"self\.max_radius - radius")
+    if len(hits) != 1:
+        raise Untranslatable("centre buffer radius expression not found")
+    out += "\n" + translate_expression(S[RSAMP], hits[0], "centre_buffer_radius", {"max_radius": "Rat", "radius": "Rat"}, "Rat", C, types=T)
+    out += "\n" + translate_function(
+        S[GENERAL], "calc_circle_radius", "calc_circle_radius", {"area": "Rat"}, "Rat", {"np.pi": "pi"},
+        types={"radius": "Rat"}, extra_params=[("pi", "Rat"), ("sqrt", "Rat → Rat")], slice_from="radius =", default_num="Rat")
+    out += "\n" + translate_function(
+        S[GENERAL], "calc_circle_area", "calc_circle_area", {"radius": "Rat"}, "Rat", {"np.pi": "pi"},
+        extra_params=[("pi", "Rat")], default_num="Rat")
+    return out
+
+
+def b_aggregate_dispatch(S):
+    """default aggregator of aggregate_chosen and the fallback chain (shape-checked constants)"""
+    tree = ast.parse(S[SUBS])
+    fn = find_func(tree, "aggregate_chosen")
+    d = None
+    for a, dflt in zip(fn.args.args[-len(fn.args.defaults):], fn.args.defaults):
+        if a.arg == "default_aggregator":
+            d = ast.unparse(dflt)
+    if d is None:
+        raise Untranslatable("default_aggregator not found")
+    out = f'def default_aggregator : String := "{d.split(".")[-1]}"\n'
+    # weights are the Area column
+    hits = [n for n in ast.walk(fn) if isinstance(n, ast.Assign) and ast.unparse(n.targets[0]) == "area_values"]
+    if len(hits) != 1 or "general.Param.AREA.value.name" not in ast.unparse(hits[0].value):
+        raise Untranslatable("area_values is not the Area column")
+    out += 'def weight_column : String := "Area"\n'
+    return out
+
+
 ITEMS: List[Item] = [
     Item("BranchIdentity", BAN, ["C05", "C01"], b_branch_identity, extra_modules=[GENERAL]),
     Item("DegreeToClass", BAN, ["C05", "C01"], b_degree_to_class, extra_modules=[GENERAL]),
@@ -390,4 +449,7 @@ ITEMS: List[Item] = [
     Item("AzimuthPost", GENERAL, ["C15"], b_azimuth_post),
     Item("IsAzimuthClose", GENERAL, ["C15"], b_is_azimuth_close),
     Item("DefaultAzimuthSets", NETWORK, ["C15"], b_default_azimuth_sets),
+    Item("CalcBins", AZIMUTH, ["C15"], b_calc_bins),
+    Item("RandomRadius", RSAMP, ["C20"], b_random_radius, extra_modules=[GENERAL]),
+    Item("AggregateDispatch", SUBS, ["C20"], b_aggregate_dispatch),
 ]
